@@ -96,6 +96,10 @@ def _model_spec(rng, mid):
         else:
             spec['ctor']['distribution'] = {'__inst__': zoo.UNI_WRAPPER, 'ctor': {
                 'candidates': [{'__cls__': zoo.FAST_UNI[0]}, {'__cls__': zoo.FAST_UNI[2]}]}}
+        if '__map__' not in str(spec['ctor']) and rng.random() < 0.5:
+            # column names whose sorted order is not the training order
+            d = len(spec['data']['margs'])
+            spec['data']['names'] = ['z%d' % (d - i) for i in range(d)]
     else:
         spec['cls'] = zoo.VINE
         spec['ctor']['vine_type'] = rng.choice(zoo.VINE_TYPES)
@@ -104,6 +108,9 @@ def _model_spec(rng, mid):
                                            patterns=('random', 'chain', 'star', 'weak'))
         spec['truncated'] = rng.randint(1, 4)
         spec['poison'] = rng.choice(['zero', 'nan', 'noise'])
+        if rng.random() < 0.5:
+            d = len(spec['data']['margs'])
+            spec['data']['names'] = ['z%d' % (d - i) for i in range(d)]
     return spec
 
 
